@@ -30,6 +30,7 @@ namespace itops
 namespace sim
 {
     const char* const harness_name = "iter";
+    const bool caller_threads_enabled = true;
 #define X(n) #n,
     const char* const op_names[] = {ITER_OPS(X)};
 #undef X
@@ -541,7 +542,7 @@ namespace
             }
             check_walkers();
         }
-        void run_all() { check_walkers(); for (const Step& st : plan.steps) step(st); }
+        void run_all() { check_walkers(); for (const Step& st : plan.steps) as_caller(run, st, [&] { step(st); }); }
     };
 
     void gen(Plan& plan, Rng& cfg, Rng& pr, int)
